@@ -832,11 +832,20 @@ func freshTargetsInHandlers(c *Ctx, rule string, res *Result) {
 // wholeCopyAt: v is a local allocation whose content at event seq is an unmodified by-value copy of a single source
 // (the last whole store into it, with no partial store afterwards); returns that source's access path.
 func wholeCopyAt(t *Terminal, v Val, seq int) (string, bool) {
-	a, ok := v.(*AllocV)
-	if !ok {
+	src, found := wholeCopyValAt(t, v, seq)
+	if !found {
 		return "", false
 	}
-	src, found := "", false
+	return ap(src), true
+}
+
+func wholeCopyValAt(t *Terminal, v Val, seq int) (Val, bool) {
+	a, ok := v.(*AllocV)
+	if !ok {
+		return nil, false
+	}
+	var src Val
+	found := false
 	for _, e := range t.St.events {
 		if e.Seq >= seq {
 			continue
@@ -845,7 +854,7 @@ func wholeCopyAt(t *Terminal, v Val, seq int) (string, bool) {
 		case EvStore:
 			switch {
 			case e.Addr.Key() == a.Key():
-				src, found = ap(e.Val), true
+				src, found = e.Val, true
 			case rootOf(e.Addr).Key() == a.Key():
 				found = false
 			}
